@@ -560,7 +560,7 @@ func c13(c *fw.Ctx) {
 		}
 	}
 	// --- Data Matrix: content of every encodation class and length
-	nrep := c.Pick(3, 40)
+	nrep := c.Pick(3, 150)
 	for ci := range c13Classes {
 		for macro := 0; macro < 3; macro++ {
 			ci, macro := ci, macro
